@@ -89,7 +89,7 @@ def sample_from_path_template(field: str, path_template: str) -> Dict[Any, Any]:
         i = path_template.index("{")
         j = path_template.index("}")
         seg = path_template[i : j + 1]
-        # Skip "}"
-        seg = seg[seg.index("=") + 1 : -1]
+        # Skip "}"; `{key}` is shorthand for `{key=*}`
+        seg = seg[seg.index("=") + 1 : -1] if "=" in seg else "*"
         path_template = path_template[:i] + seg + path_template[j + 1 :]
     return sample_from_path_fields([(field, path_template)])
